@@ -195,16 +195,17 @@ class _Inliner:
 
     def binding(self, fn: ast.FunctionDef, call: ast.Call, body: Optional[List[ast.stmt]] = None) -> Optional[Dict[str, ast.AST]]:
         a = fn.args
-        if a.vararg or a.kwarg or a.kwonlyargs or a.posonlyargs or call.keywords and any(k.arg is None for k in call.keywords):
+        if a.vararg or a.kwarg or a.posonlyargs or call.keywords and any(k.arg is None for k in call.keywords):
             return None
         params = [p.arg for p in a.args]
+        kwonly = [p.arg for p in a.kwonlyargs]
         if any(isinstance(x, ast.Starred) for x in call.args) or len(call.args) > len(params):
             return None
         m: Dict[str, ast.AST] = {}
         for p, x in zip(params, call.args):
             m[p] = x
         for k in call.keywords:
-            if k.arg not in params or k.arg in m:
+            if k.arg not in params + kwonly or k.arg in m:
                 return None
             m[k.arg] = k.value
         nd = len(a.defaults)
@@ -215,6 +216,12 @@ class _Inliner:
                     m[p] = a.defaults[di]
                 else:
                     return None
+        for p, d in zip(kwonly, a.kw_defaults):
+            if p not in m:
+                if d is None:
+                    return None
+                m[p] = d
+        params = params + kwonly
         body = body if body is not None else _body_wo_doc(fn)
         st = _stores(body) - set(params)
         for p, x in m.items():
@@ -239,9 +246,53 @@ class _Inliner:
             out.append(s2)
         return out
 
+    def cond_inline(self, tree: ast.AST):
+        """In the test of an if / while / conditional expression, a predicate helper written as guard clauses
+        (`if not A: return False` ... `return B`) is the conjunction `A and ... and B` (as a truth value)."""
+        inl = self
+
+        def chain(body: List[ast.stmt]) -> Optional[List[ast.expr]]:
+            if not body or not isinstance(body[-1], ast.Return) or body[-1].value is None:
+                return None
+            conj: List[ast.expr] = []
+            for st in body[:-1]:
+                if not (isinstance(st, ast.If) and not st.orelse and len(st.body) == 1 and isinstance(st.body[0], ast.Return) and isinstance(st.body[0].value, ast.Constant) and st.body[0].value.value is False):
+                    return None
+                t = st.test
+                conj.append(t.operand if isinstance(t, ast.UnaryOp) and isinstance(t.op, ast.Not) else ast.UnaryOp(op=ast.Not(), operand=t))
+            conj.append(body[-1].value)
+            return conj if len(conj) >= 2 else None
+
+        def cond(e: ast.AST) -> ast.AST:
+            if isinstance(e, ast.BoolOp):
+                e.values = [cond(v) for v in e.values]
+                return e
+            if isinstance(e, ast.UnaryOp) and isinstance(e.op, ast.Not):
+                e.operand = cond(e.operand)
+                return e
+            if isinstance(e, ast.Call) and inl.lookup(e) is not None:
+                fn = inl.lookup(e)
+                body = _body_wo_doc(fn)
+                cj = chain(body)
+                if cj is not None and not _has_nested_def(body):
+                    m = inl.binding(fn, e, [ast.Expr(c) for c in cj])
+                    if m is not None and all(_simple_arg(a_) for a_ in m.values()):
+                        out = ast.BoolOp(op=ast.And(), values=[_Subst(m).visit(copy.deepcopy(c)) for c in cj])
+                        for x in ast.walk(out):
+                            ast.copy_location(x, e)
+                        inl.changed = True
+                        return out
+            return e
+
+        for n in ast.walk(tree):
+            if isinstance(n, (ast.If, ast.While, ast.IfExp)):
+                n.test = cond(n.test)
+        return tree
+
     def expr_inline(self, tree: ast.AST):
         """h(a) -> <expr> for single-return helpers (bottom-up, repeated by the caller)."""
         inl = self
+        self.cond_inline(tree)
 
         class T(ast.NodeTransformer):
             def visit_Call(self, n: ast.Call):
@@ -268,6 +319,26 @@ class _Inliner:
                 sub = getattr(st, fld, None)
                 if isinstance(sub, list) and sub and isinstance(sub[0], ast.stmt) and not isinstance(st, ast.FunctionDef):
                     setattr(st, fld, self.stmt_inline(sub))
+            # `x = h(f.read(30))` where h uses its parameter more than once: the argument is evaluated once, into a temporary
+            if isinstance(st, (ast.Expr, ast.Assign, ast.Return)) and isinstance(st.value, ast.Call) and self.lookup(st.value) is not None and not st.value.keywords and not any(isinstance(a_, ast.Starred) for a_ in st.value.args):
+                fn0 = self.lookup(st.value)
+                b0 = _body_wo_doc(fn0)
+                ps0 = [p_.arg for p_ in fn0.args.args]
+                if isinstance(st.value.func, ast.Attribute) and ps0[:1] == ["self"]:
+                    ps0 = ps0[1:]
+                need = [i_ for i_, a_ in enumerate(st.value.args) if i_ < len(ps0) and not _simple_arg(a_) and _uses(b0, ps0[i_]) > 1]
+                if need:
+                    pre0 = []
+                    for i_, a_ in enumerate(st.value.args):
+                        if i_ <= max(need) and not _simple_arg(a_):
+                            self.counter += 1
+                            tn = f"arg__{fn0.name}{self.counter}"
+                            asg0 = ast.copy_location(ast.Assign([ast.Name(tn, ast.Store())], a_), st)
+                            ast.fix_missing_locations(asg0)
+                            pre0.append(asg0)
+                            st.value.args[i_] = ast.copy_location(ast.Name(tn, ast.Load()), a_)
+                    out.extend(pre0)
+                    self.changed = True
             # a helper call buried in a simple statement (`s.update(h(x))`) is first hoisted: `t = h(x); s.update(t)`
             if isinstance(st, (ast.Expr, ast.Assign, ast.AugAssign, ast.Return)) and not (isinstance(st, (ast.Expr, ast.Return)) and isinstance(st.value, ast.Call) and self.lookup(st.value) is not None) and not (isinstance(st, ast.Assign) and isinstance(st.value, ast.Call) and self.lookup(st.value) is not None):
                 guarded = set()
@@ -351,8 +422,125 @@ class _Inliner:
         return out
 
 
+class _Divmod(ast.NodeTransformer):
+    """`q, r = divmod(x, c)` is `q = x // c; r = x % c` for every Python int (and `x >> k`, `x & (2**k - 1)` when c = 2**k):
+    the bit-field rules read shifts and masks."""
+
+    def _split(self, st: ast.Assign):
+        if not (len(st.targets) == 1 and isinstance(st.targets[0], (ast.Tuple, ast.List)) and len(st.targets[0].elts) == 2 and all(isinstance(e, ast.Name) for e in st.targets[0].elts)):
+            return None
+        v = st.value
+        if not (isinstance(v, ast.Call) and isinstance(v.func, ast.Name) and v.func.id == "divmod" and len(v.args) == 2 and not v.keywords):
+            return None
+        x, c = v.args
+        if not (isinstance(c, ast.Constant) and isinstance(c.value, int) and not isinstance(c.value, bool) and c.value > 0):
+            return None
+        q, r = st.targets[0].elts
+        pre = []
+        if not isinstance(x, (ast.Name, ast.Constant)) or (isinstance(x, ast.Name) and x.id in (q.id, r.id)):
+            # the dividend is evaluated once: kept in a temporary
+            self.n = getattr(self, "n", 0) + 1
+            tmp = f"dividend__{self.n}"
+            pre = [ast.Assign(targets=[ast.Name(id=tmp, ctx=ast.Store())], value=x)]
+            x = ast.Name(id=tmp, ctx=ast.Load())
+        k = c.value.bit_length() - 1
+        if c.value == 1 << k and k > 0:
+            qv = ast.BinOp(left=copy.deepcopy(x), op=ast.RShift(), right=ast.Constant(value=k))
+            rv = ast.BinOp(left=copy.deepcopy(x), op=ast.BitAnd(), right=ast.Constant(value=c.value - 1))
+        else:
+            qv = ast.BinOp(left=copy.deepcopy(x), op=ast.FloorDiv(), right=ast.Constant(value=c.value))
+            rv = ast.BinOp(left=copy.deepcopy(x), op=ast.Mod(), right=ast.Constant(value=c.value))
+        out = pre + [ast.Assign(targets=[ast.Name(id=q.id, ctx=ast.Store())], value=qv), ast.Assign(targets=[ast.Name(id=r.id, ctx=ast.Store())], value=rv)]
+        for o in out:
+            ast.copy_location(o, st)
+            ast.fix_missing_locations(o)
+        return out
+
+    def generic_visit(self, node):
+        super().generic_visit(node)
+        for fld in ("body", "orelse", "finalbody"):
+            seq = getattr(node, fld, None)
+            if isinstance(seq, list) and seq and isinstance(seq[0], ast.stmt):
+                new = []
+                for st in seq:
+                    rep = self._split(st) if isinstance(st, ast.Assign) else None
+                    new.extend(rep if rep else [st])
+                setattr(node, fld, new)
+        return node
+
+
+class _Unroll(ast.NodeTransformer):
+    """`[f(k) for k in (2, 1, 0)]` is `[f(2), f(1), f(0)]`; integer arithmetic on constants is folded (`2 + 3` -> `5`)."""
+
+    def visit_ListComp(self, n: ast.ListComp):
+        self.generic_visit(n)
+        if len(n.generators) == 1 and not n.generators[0].ifs and not n.generators[0].is_async and isinstance(n.generators[0].target, ast.Name) and isinstance(n.generators[0].iter, (ast.Tuple, ast.List)) and 1 <= len(n.generators[0].iter.elts) <= 8 and all(isinstance(e, ast.Constant) and isinstance(e.value, int) for e in n.generators[0].iter.elts):
+            var = n.generators[0].target.id
+            elts = []
+            for e in n.generators[0].iter.elts:
+                item = _Subst({var: e}).visit(copy.deepcopy(n.elt))
+                elts.append(_Fold().visit(item))
+            out = ast.List(elts=elts, ctx=ast.Load())
+            ast.copy_location(out, n)
+            ast.fix_missing_locations(out)
+            return out
+        return n
+
+
+class _Fold(ast.NodeTransformer):
+    def visit_BinOp(self, n: ast.BinOp):
+        self.generic_visit(n)
+        if isinstance(n.left, ast.Constant) and isinstance(n.right, ast.Constant) and all(isinstance(x.value, int) and not isinstance(x.value, bool) for x in (n.left, n.right)):
+            ops = {ast.Add: lambda a, b: a + b, ast.Sub: lambda a, b: a - b, ast.Mult: lambda a, b: a * b}
+            f = ops.get(type(n.op))
+            if f is not None:
+                out = ast.Constant(value=f(n.left.value, n.right.value))
+                ast.copy_location(out, n)
+                return out
+        return n
+
+
+_PURE_CALLS = {"getbit", "pack", "int", "len", "min", "max", "abs"}
+
+
+def _inline_list_temps(fn: ast.FunctionDef):
+    """`rgb = [<pure>...]` directly followed by the only statement that uses `rgb` (once): the display is put back at the use."""
+
+    def pure(e: ast.AST) -> bool:
+        return all(not isinstance(c, ast.Call) or (isinstance(c.func, ast.Name) and c.func.id in _PURE_CALLS) for c in ast.walk(e)) and not any(isinstance(c, (ast.Await, ast.Yield, ast.YieldFrom, ast.NamedExpr, ast.Lambda)) for c in ast.walk(e))
+
+    def do(seq: List[ast.stmt]) -> List[ast.stmt]:
+        out: List[ast.stmt] = []
+        i = 0
+        while i < len(seq):
+            st = seq[i]
+            if i + 1 < len(seq) and isinstance(st, ast.Assign) and len(st.targets) == 1 and isinstance(st.targets[0], ast.Name) and isinstance(st.value, ast.List) and pure(st.value):
+                name = st.targets[0].id
+                nxt = seq[i + 1]
+                total = sum(1 for n in ast.walk(fn) if isinstance(n, ast.Name) and n.id == name)
+                here = [n for n in ast.walk(nxt) if isinstance(n, ast.Name) and n.id == name and isinstance(n.ctx, ast.Load)]
+                simple_next = isinstance(nxt, (ast.Expr, ast.Assign, ast.Return)) and not any(isinstance(c, (ast.FunctionDef, ast.Lambda, ast.ListComp, ast.GeneratorExp)) for c in ast.walk(nxt))
+                if total == 2 and len(here) == 1 and simple_next:
+                    seq[i + 1] = _Subst({name: st.value}).visit(nxt)
+                    i += 1
+                    continue
+            out.append(st)
+            i += 1
+        return out
+
+    for node in ast.walk(fn):
+        for fld in ("body", "orelse", "finalbody"):
+            seq = getattr(node, fld, None)
+            if isinstance(seq, list) and seq and isinstance(seq[0], ast.stmt):
+                setattr(node, fld, do(seq))
+
+
 def normalise_module(tree: ast.Module) -> ast.Module:
     t = copy.deepcopy(tree)
+    t = _Divmod().visit(t)
+    t = _Unroll().visit(t)
+    for f_ in [f for f in ast.walk(t) if isinstance(f, ast.FunctionDef)]:
+        _inline_list_temps(f_)
     # ---- module-level data re-stated inside the functions that read it
     data: Dict[str, ast.Assign] = {}
     for n in t.body:
